@@ -167,6 +167,10 @@ def merge(outs):
 
 
 def write_evidence(chk, tier, seed, m, wall, problems, nshards):
+    global EVID
+    if os.environ.get("VERIF_REPO"):
+        # runs against a scratch copy (mutants, seeds) must never overwrite the evidence of /repo itself
+        EVID = os.path.join(tempfile.gettempdir(), "verif-mutant-evidence")
     os.makedirs(EVID, exist_ok=True)
     cov = dict(evaluations=m["evaluations"], distinct_nontrivial=len(m["nt"]), rule=m["rule"],
                samples=m["samples"], classes=m["classes"], nontrivial_total=m["nontrivial"],
